@@ -28,6 +28,7 @@ CONSTANTS Source = "file"
 INVARIANT RegistryInv
 """
 CFG_TRACE = """SPECIFICATION Spec
+CONSTANT DottedNames <- TraceDotted
 CONSTRAINT Monitor
 POSTCONDITION Post
 """
@@ -48,6 +49,15 @@ ZOPE_PROJECTS = [
      "zp/alpha.py": "from zope.interface import implementer\nfrom zp._iface import IPlugin, IOther\n@implementer(IPlugin)\nclass One:\n    def run(self): pass\n"
                     "@implementer(IOther, IPlugin)\nclass Both:\n    def run(self): pass\n",
      "zp/beta.py": "from zope.interface import implementer\nimport zp._iface\n@implementer(zp._iface.IPlugin)\nclass Three(object):\n    pass\n"},
+    # zope.interface.Attribute / schema fields assigned to a name that a def or class of the same scope already took
+    {"zp/__init__.py": "", "zp/m.py": "import zope.interface\nfrom zope.interface import Interface, Attribute\nfrom zope import schema\n"
+                                      "class I(Interface):\n    def f(): 'doc'\n    f = zope.interface.Attribute('x')\n    class g: pass\n    g = Attribute('y')\n"
+                                      "    def h(): pass\n    h = schema.TextLine(description='d')\n    ok = Attribute('fine')\n"},
+    # names with a dot in them ('x.setter' for the setter of a property) next to real members of that qualified name
+    {"zp/__init__.py": "", "zp/m.py": "class A:\n    class x:\n        @staticmethod\n        def setter(f): return f\n        @staticmethod\n        def deleter(f): return f\n"
+                                      "    @x.setter\n    def x(self, v): pass\n"
+                                      "class B:\n    class y:\n        def setter(self, f): return f\n    @property\n    def y(self): pass\n    @y.setter\n    def y(self, v): pass\n"
+                                      "class C:\n    @property\n    def z(self): pass\n    @z.setter\n    def z(self, v): pass\n    class z:\n        def setter(self): pass\n"},
     # hierarchies Python rejects (no consistent order): the order pydoctor falls back to still names each class once
     {"zp/__init__.py": "", "zp/h.py": "class A: pass\nclass B(A): pass\nclass C(A, B): pass\nclass D(C): pass\n"
                                       "class X(A, B): pass\nclass Y(B, A): pass\nclass Z(X, Y): pass\nclass W(Z, A): pass\n",
@@ -142,12 +152,30 @@ def trace_of(rec: P.Recorder) -> Dict[str, Any]:
                    for e in rec.events]}
 
 
+def dotted_file(ctx: Ctx, traces: List[Dict[str, Any]], tag: str) -> Path:
+    """The names with a dot in them ('x.setter') that occur in the traces -> their parts: System.allobjects is keyed by strings,
+    so such a name contributes several components to a key (DottedNames of Registry.tla; TLA+ cannot split a string)."""
+    table: Dict[str, List[str]] = {"__none__": ["__none__"]}
+    for t in traces:
+        for e in t["ev"]:
+            for o in (e["s"] or {}).get("objs", []):
+                if "." in o["nm"]["b"]:
+                    table[o["nm"]["b"]] = o["nm"]["b"].split(".")
+            if isinstance(e.get("nm"), str) and "." in e["nm"]:
+                table[e["nm"]] = e["nm"].split(".")
+    f = ctx.scratch / f"dotted_{tag}.json"
+    f.write_text(json.dumps(table))
+    ctx.extra["dotted_names_in_traces"] = sorted(set(ctx.extra.get("dotted_names_in_traces", [])) | (set(table) - {"__none__"}))
+    return f
+
+
 def validate_traces(ctx: Ctx, traces: List[Dict[str, Any]], origins: List[Dict[str, Any]]) -> Dict[str, int]:
     stats = {"accepted": 0, "rejected": 0, "tlc_invariant_hits": 0}
     for off, batch in enumerate(chunks(list(zip(traces, origins)), 150)):
         f = ctx.scratch / f"traces_{off}.json"
         f.write_text(json.dumps([t for t, _ in batch]))
-        r = ctx.tlc("RegistryTrace", CFG_TRACE, workers=1, env={"TRACE_FILE": str(f)}, check=True, timeout=1500)
+        df = dotted_file(ctx, [t for t, _ in batch], str(off))
+        r = ctx.tlc("RegistryTrace", CFG_TRACE, workers=1, env={"TRACE_FILE": str(f), "DOTTED_FILE": str(df)}, check=True, timeout=1500)
         if not r.printed:
             raise MachineryError("RegistryTrace: no postcondition output")
         out = r.printed[-1]
@@ -173,8 +201,9 @@ def validate_traces(ctx: Ctx, traces: List[Dict[str, Any]], origins: List[Dict[s
 
 CFG_API = """SPECIFICATION Spec
 CONSTANTS MaxObj = {n}
-  Names = {{"a", "b"}}
+  Names = {names}
   MaxHist = {n}
+  DottedNames <- MCDotted
 VIEW View
 ACTION_CONSTRAINT EmitEdge
 INVARIANT RegistryInv
@@ -221,30 +250,40 @@ def api_level(ctx: Ctx) -> None:
     """Registry as a free-standing machine (any legal addObject / reparent): one history per transition of the
     reachable graph, replayed through the real System.  Conformance only (such histories need not be producible
     by analysing source): differences are drift, invariant failures on the real state are recorded, not alarms."""
-    n = 4 if ctx.quick else 5
-    r = ctx.tlc("RegistryMC", CFG_API.format(n=n), workers="auto", check=True, timeout=2400)
-    mism = inv_fail = 0
-    edges = r.printed
-    if not ctx.quick:
-        edges = edges[:: max(1, len(edges) // 60000)]
-    for e in edges:
-        real = replay_api_history(e["h"])
-        ctx.traces += 1
-        spec_keys = sorted((([dict(c) for c in k["k"]], k["o"]) for k in e["keys"]), key=lambda t: json.dumps(t, sort_keys=True))
-        spec_objs = [{"cls": o["cls"], "nm": o["nm"], "par": o["par"]} for o in e["objs"]]
-        real_cls = [{**o, "cls": {"ZopeInterfaceClass": "Class", "ZopeInterfaceFunction": "Function",
-                                  "ZopeInterfaceAttribute": "Attribute"}.get(o["cls"], o["cls"])} for o in real["objs"]]
-        if bool(real["crash"]) != e["crash"] or (not e["crash"] and (real_cls != spec_objs or
-                                                                     [[k, o] for k, o in real["keys"]] != [[k, o] for k, o in spec_keys])):
-            mism += 1
-            ctx.drift_note({"what": "api-level", "history": e["h"], "spec_crash": e["crash"], "real_crash": real["crash"]})
-        if not real["crash"]:
-            st = {"objs": real["objs"], "cont": [[[nm, next(i + 1 for i, x in enumerate(real["objlist"]) if x is c)] for nm, c in o.contents.items()] for o in real["objlist"]],
-                  "all": [[k, o] for k, o in real["keys"]], "roots": [next(i + 1 for i, x in enumerate(real["objlist"]) if x is ro) for ro in real["system"].rootobjects]}
-            if P.registry_invariants(st):
-                inv_fail += 1
-    ctx.extra["api_level"] = {"bound": n, "transitions_replayed": len(edges), "mismatches": mism,
-                              "design_level_RegistryInv": "holds" if not r.violated else "VIOLATED",
+    # names with a dot in them (the setter of a property): (C, "a.b") and (C.a, "b") are one key of the string-keyed registry;
+    # the smallest collision needs five objects, so a second configuration over {"a", "a.a"} reaches it in the quick tier too
+    configs = [(4, '{"a", "b", "a.b"}'), (5, '{"a", "a.a"}')] if ctx.quick else [(5, '{"a", "b", "a.b"}'), (5, '{"a", "a.a"}')]
+    mism = inv_fail = total = collisions = 0
+    design = "holds"
+    for n, names in configs:
+        r = ctx.tlc("RegistryMC", CFG_API.format(n=n, names=names), workers="auto", check=True, timeout=2400)
+        if r.violated:
+            design = "VIOLATED"
+        edges = r.printed
+        if not ctx.quick:
+            edges = edges[:: max(1, len(edges) // 60000)]
+        total += len(edges)
+        for e in edges:
+            real = replay_api_history(e["h"])
+            ctx.traces += 1
+            spec_keys = sorted((([dict(c) for c in k["k"]], k["o"]) for k in e["keys"]), key=lambda t: json.dumps(t, sort_keys=True))
+            spec_objs = [{"cls": o["cls"], "nm": o["nm"], "par": o["par"]} for o in e["objs"]]
+            real_cls = [{**o, "cls": {"ZopeInterfaceClass": "Class", "ZopeInterfaceFunction": "Function",
+                                      "ZopeInterfaceAttribute": "Attribute"}.get(o["cls"], o["cls"])} for o in real["objs"]]
+            if any("." in o["nm"]["b"] and o["nm"]["d"] > 0 for o in spec_objs):
+                collisions += 1         # a dotted name was superseded (or superseded something): the string keys collided
+            if bool(real["crash"]) != e["crash"] or (not e["crash"] and (real_cls != spec_objs or
+                                                                         [[k, o] for k, o in real["keys"]] != [[k, o] for k, o in spec_keys])):
+                mism += 1
+                ctx.drift_note({"what": "api-level", "history": e["h"], "spec_crash": e["crash"], "real_crash": real["crash"]})
+            if not real["crash"]:
+                st = {"objs": real["objs"], "cont": [[[nm, next(i + 1 for i, x in enumerate(real["objlist"]) if x is c)] for nm, c in o.contents.items()] for o in real["objlist"]],
+                      "all": [[k, o] for k, o in real["keys"]], "roots": [next(i + 1 for i, x in enumerate(real["objlist"]) if x is ro) for ro in real["system"].rootobjects]}
+                if P.registry_invariants(st):
+                    inv_fail += 1
+    ctx.extra["api_level"] = {"configurations": [{"MaxObj": n, "Names": names} for n, names in configs], "transitions_replayed": total, "mismatches": mism,
+                              "histories_with_a_superseded_dotted_name": collisions,
+                              "design_level_RegistryInv": design,
                               "real_states_failing_an_invariant_(not_a_verdict)": inv_fail}
 
 
@@ -337,7 +376,7 @@ def run(ctx: Ctx) -> int:
     last["all"][-1][0][-1]["b"] = "CORRUPT"
     f = ctx.scratch / "neg.json"
     f.write_text(json.dumps([bad]))
-    rn = ctx.tlc("RegistryTrace", CFG_TRACE, workers=1, env={"TRACE_FILE": str(f)}, check=True, count=False)
+    rn = ctx.tlc("RegistryTrace", CFG_TRACE, workers=1, env={"TRACE_FILE": str(f), "DOTTED_FILE": str(dotted_file(ctx, [bad], "neg"))}, check=True, count=False)
     outn = rn.printed[-1]
     nc = {"rejected": 1 not in outn["accepted"], "python_twin_flags": bool(P.registry_invariants(last))}
     ctx.extra["negative_control"] = nc
